@@ -1,17 +1,403 @@
-"""C02 - derived expectations agree with the reference peers (stub, filled in below)."""
-from ..core import Prop
+"""C02 - derived expectations agree with the reference peers on any well-formed test case.
+
+Case trees (see harness/C02/.../zz_verif_c02_test.go and C02_Model.v):
+  test    := (name stype reqheaders (request ...))
+  request := (kind full data def?)        kind 0 Unary 1 ClientStream 2 ServerStream 3 BidiStream 4 other message 5 unknown URL
+  def     := (headers trailers (data ...) err?)      err := (code msg? ((kind content) ...))
+  c02.expect (tests)                       -> loader outcome + derived expectations
+  c02.live   (gc gs) (cfg ...) (tests)     -> per permutation: verdict and projected observed result, real peers in-process
+"""
+import base64
+import itertools
+
+import random
+
+from ..core import Prop, Violation, parse_sx, sx, known_findings, _shrink_candidates
+
+UNARY, CLIENT, SERVER, HALF, FULL = 1, 2, 3, 4, 5
+KIND_OF = {UNARY: 0, CLIENT: 1, SERVER: 2, HALF: 3, FULL: 3}
+
+NAME_POOL = ["x-a", "X-Custom", "x-UPPER-lower", "Xb", "x-data-bin", "X-Other-Bin", "x_under", "x-1", "Z"]
+MSG_POOL = [b"oops", b"", b"with space", "über".encode(), b"100% sure", b"two\nlines", b"a,b", "☃ snow".encode()]
+VAL_CHARS = [c for c in range(33, 127) if c != 44]
+
+
+def hdr_value(rng, name):
+    if name.lower().endswith("-bin"):
+        raw = bytes(rng.randrange(256) for _ in range(rng.randint(1, 12)))
+        return base64.b64encode(raw).rstrip(b"=")
+    n = rng.randint(1, 12)
+    body = [rng.choice(VAL_CHARS) for _ in range(n)]
+    for i in range(1, n - 1):
+        if rng.random() < 0.15:
+            body[i] = 32
+    return bytes(body)
+
+
+def headers(rng, maxn=3, pool=None):
+    """distinct names up to case, 1-3 values each ("repeated" = several values under one name)"""
+    pool = pool or NAME_POOL
+    names = rng.sample(pool, rng.randint(0, min(maxn, len(pool))))
+    return [[n, [hdr_value(rng, n) for _ in range(rng.choice([1, 1, 2, 3]))]] for n in names]
+
+
+def payload(rng, i=None):
+    r = rng.random()
+    if r < 0.15:
+        return b""
+    n = rng.randint(1, 12) if r < 0.7 else rng.randint(13, 300)
+    return bytes(rng.randrange(256) for _ in range(n))
+
+
+def error(rng):
+    dets = []
+    for _ in range(rng.choice([0, 0, 1, 2, 3])):
+        txt = rng.choice([b"", b"detail", "détail".encode(), bytes(rng.choice(b"abcxyz -_/") for _ in range(rng.randint(1, 60)))])
+        dets.append([rng.randint(0, 1), txt])
+    msg = [] if rng.random() < 0.2 else [rng.choice(MSG_POOL)]
+    return [rng.randint(1, 16), msg, dets]
+
+
+def definition(rng, st, nresp=None, err=None):
+    if st in (UNARY, CLIENT):
+        data = [payload(rng)] if rng.random() < 0.8 else []
+    else:
+        n = nresp if nresp is not None else rng.choice([0, 1, 1, 2, 3, 4, 5])
+        data = [payload(rng) for _ in range(n)]
+    e = []
+    if err is True or (err is None and rng.random() < 0.35):
+        e = [error(rng)]
+    # names may overlap between headers and trailers
+    return [headers(rng), headers(rng), data, e]
+
+
+def wf_test(rng, name, st=None, nreq=None, nresp=None, err=None, with_def=None):
+    st = st or rng.choice([UNARY, UNARY, CLIENT, CLIENT, SERVER, SERVER, HALF, HALF, FULL, FULL, FULL])
+    if st in (UNARY, SERVER):
+        nreq = 1
+    elif nreq is None:
+        nreq = rng.choice([0, 1, 1, 2, 2, 3, 4])
+    reqs = []
+    for i in range(nreq):
+        d = []
+        if i == 0:
+            if with_def is True or (with_def is None and rng.random() < 0.9):
+                d = [definition(rng, st, nresp, err)]
+        elif rng.random() < 0.15:
+            d = [definition(rng, st)]       # ignored by the servers: only the first message defines the response
+        data = bytes([i]) + payload(rng)    # distinct per position
+        reqs.append([KIND_OF[st], 1 if st == FULL else 0, data, d])
+    return [name, st, headers(rng), reqs]
+
+
+def t_stype(t): return t[1]
+def t_reqs(t): return t[3]
+
+
+def first_def(t):
+    rs = t_reqs(t)
+    if rs and rs[0][3]:
+        return rs[0][3][0]
+    return None
+
+
+def is_fd_immediate_error_multi(t):
+    d = first_def(t)
+    return t_stype(t) == FULL and len(t_reqs(t)) >= 2 and d is not None and not d[2] and bool(d[3])
+
+
+def is_zero_request_stream(t):
+    return t_stype(t) in (CLIENT, HALF, FULL) and not t_reqs(t)
+
+
+def is_half_multi(t):
+    return t_stype(t) == HALF and len(t_reqs(t)) >= 2
+
+
+def split_for_grpc_server(gs, cfgs, tests):
+    """the grpc-go reference server sends response headers as soon as the first request of a bidi stream arrives; over
+    HTTP/1.1 (gRPC-Web) net/http then closes the request body, so whether the remaining requests of a half-duplex stream
+    can still be read is a race (known class grpc-server-h1-half-duplex-early-headers): such shapes run over HTTP/2 only
+    here, and over HTTP/1.1 in a batch of their own in the thorough tier"""
+    if not gs:
+        return [(cfgs, tests)]
+    racy = [t for t in tests if is_half_multi(t)]
+    rest = [t for t in tests if not is_half_multi(t)]
+    out = [(cfgs, rest)] if rest else []
+    if racy:
+        out.append(([c for c in cfgs if c[0] == 2], racy))
+    return out
+
+
+def cfg_matrix(tier, gc, gs):
+    vers = [1, 2]
+    comps = [1, 2] if tier == "quick" else [1, 2, 3, 4, 5, 6]
+    tls = [0] if tier == "quick" else [0, 1]
+    out = []
+    for v, p, c, z, s in itertools.product(vers, [1, 2, 3], [1, 2], comps, tls):
+        if p == 2 and v != 2:
+            continue
+        if gc or gs:
+            if p == 1 or c != 1 or z not in (1, 2) or s:
+                continue
+            if gc and p != 2:
+                continue
+            if p == 2 and v != 2:
+                continue
+        out.append([v, p, c, z, s])
+    return out
+
+
+def malformed_test(rng, name):
+    """a test case that may be outside the well-formed fragment: the loader must reject or accept it, never crash"""
+    t = wf_test(rng, name)
+    r = rng.random()
+    if r < 0.15:
+        t[1] = rng.choice([0, 6, 7, 1, 2, 3, 4, 5])                 # other stream type, same messages
+    elif r < 0.35 and t[3]:
+        t[3][0][0] = rng.choice([0, 1, 2, 3, 4, 5])                 # first message of another type
+    elif r < 0.45:
+        t[0] = b""                                                  # no name
+    elif r < 0.6:
+        t[3] = []                                                   # no request at all
+    elif r < 0.75 and t[3]:
+        t[3] = t[3] + [list(x) for x in t[3]]                       # more requests (also for unary / server stream)
+    elif r < 0.9:
+        t[1] = FULL
+        for q in t[3]:
+            q[0], q[1] = 3, 1
+    return t
 
 
 class C02(Prop):
     id = "C02"
     props = None
-    coq_files = ("Base", "C03_Consts", "C03_Model", "C02_Model")
+    coq_files = ("Base", "C03_Consts", "C03_Model", "C03_Spec", "C03_Proofs", "C02_Model")
     models = ("C02_Model",)
     packages = {"cc": "internal/app/connectconformance"}
     kinds = {"c02.expect": "cc", "c02.live": "cc"}
+    go_timeout = 1500
+    rule = ("c02.expect: every (stream type x 0-3 requests x 0-3 responses x error x definition present) shape plus seeded random "
+            "suites of 1-4 cases, a third of them outside the well-formed fragment (wrong message type, stream type 0/6/7, no name, "
+            "duplicate names, no requests, surplus requests) through the real parseTestSuites + newTestCaseLibrary; "
+            "c02.live: seeded random well-formed cases (all five stream types, 0-4 requests, 0-5 responses incl. more responses than "
+            "requests, empty and 1-300 byte payloads, errors of every code with/without message and 0-3 details after 0..n responses, "
+            "headers/trailers with 1-3 values, mixed case, -bin, overlapping names) run by the real runTestCasesForServer against the "
+            "in-process reference server / grpc-go server with the reference / grpc-go client under {HTTP/1.1,h2c} x 3 protocols x "
+            "{proto,json} x {identity,gzip} (thorough: six compressions, TLS); compared: verdict (pass) and projected observed result. "
+            "non-trivial = at least one permutation ran / at least one expectation was derived")
+    trusted_base = ("Coq 8.16.1 kernel", "extraction (ExtrOcamlBasic only) + ocaml/driver.ml", "vlib generators/comparator, Go overlay harness files",
+                    "C03's model of results.go assert (tied to the code by C03's own check)",
+                    "modelled not verified: connect-go, grpc-go, net/http, TLS, compression, the JSON/proto codecs (behind the transport hypotheses)")
+    assumptions = ("transport hypotheses (C02_Spec.transport_ok): every header/trailer the sender set arrives under its name (case-insensitively) with its values "
+                   "in order up to comma joining; on a failed unary/client-stream call connect-go's error metadata carries per name the header values "
+                   "followed by the trailer values; messages, their order, error code/message/details arrive unchanged; the handler sees the client's "
+                   "headers under the same rule - validated by sampling on every run, not proved",
+                   "header names are HTTP tokens outside the protocol-reserved set, distinct up to case within a list; values visible ASCII without comma or edge whitespace",
+                   "request messages are identified by (message type, request data)")
+    level = "proof+sampled"
+    level_text = ("Machine-checked proof (Coq) that for every well-formed test case of the deterministic fragment - any stream type, any number of "
+                  "requests/responses/headers/details - the modelled expectation generator, reference/gRPC server handlers and reference/gRPC client "
+                  "reports make C03's model of the runner's assert report nothing, for all four peer pairs, under explicit transport hypotheses; that "
+                  "the expectation generator and the suite loader never crash on any shape; sampled differential validation of the model (including "
+                  "the transport hypotheses) against the real loader and the real in-process peers on every check.")
+    level_note = ("Partial: the RPC libraries and HTTP are hypotheses (C02_Spec.transport_ok), validated only by sampling. expectation_met excludes the "
+                  "known class fd-immediate-error-multi (proved to FAIL in the model: expectation_unmet_fd_immediate_error) and, for the grpc-go server, "
+                  "the zero-request hang class (outside the model: timing). load_total covers expandCases' validations and the expectation generator; "
+                  "protoyaml parsing and expandRequestData (C19) / config expansion (C06, C07) are not re-modelled here.")
+    technique = "Coq proof of model-level agreement (composition with C03's assert_iff) + differential model-vs-Go correspondence incl. live in-process runs"
 
+    # ---------------------------------------------------------------- classification of known findings
+    def classify(self, case, go_res, model_res):
+        if case[0] != "c02.live" or go_res is None or model_res is None:
+            return None
+        tests = case[3]
+        gc, gs = case[1]
+        try:
+            g, m = parse_sx(go_res), parse_sx(model_res)
+        except Exception:
+            return None
+        if tests and all(is_fd_immediate_error_multi(t) for t in tests):
+            # exactly: same permutations, same observed result, only the verdict differs (a failed assertion)
+            if isinstance(g, list) and isinstance(m, list) and len(g) == len(m) and all(
+                    isinstance(x, list) and len(x) == 4 and x[0] == y[0] and x[1] == y[1] and x[3] == y[3]
+                    and isinstance(x[2], list) and x[2] and x[2][0] == b"fail" for x, y in zip(g, m)):
+                return "fd-immediate-error-multi"
+        if gs and tests and all(is_zero_request_stream(t) for t in tests) and all(c[1] == 2 for c in case[2]):
+            return "grpc-server-zero-request-hang"
+        if gs and tests and all(is_half_multi(t) for t in tests) and all(c[0] == 1 for c in case[2]):
+            return "grpc-server-h1-half-duplex-early-headers"
+        return None
+
+    def describe(self, case, g, m):
+        if case[0] == "c02.expect":
+            return "suite loading / derived expectation differs from the proved model (loader must reject or accept, never crash)"
+        return "a well-formed case did not pass against the reference peers, or the observed result differs from the model's"
+
+    def nontrivial(self, case, res):
+        if case[0] == "c02.expect":
+            return res.startswith("((")
+        return "70617373" in res      # at least one permutation passed
+
+    # ---------------------------------------------------------------- generators
     def generate(self, rng, tier):
-        return []
+        quick = tier == "quick"
+        # 1. bounded-exhaustive small shapes through the loader
+        k = 0
+        for st, nreq, nresp, err, wd in itertools.product([1, 2, 3, 4, 5], range(4), range(4), [False, True], [False, True]):
+            k += 1
+            t = wf_test(rng, "s%d" % k, st=st, nreq=nreq, nresp=nresp, err=err, with_def=wd)
+            if st in (UNARY, SERVER) and nreq != 1:
+                # outside the fragment on purpose: 0, 2 or 3 messages for a single-request method
+                base = t[3][0]
+                t[3] = [list(base) for _ in range(nreq)]
+            yield ["c02.expect", [t]]
+        # 2. random suites, a third with malformed members
+        for i in range(1200 if quick else 30000):
+            n = rng.randint(1, 4)
+            bad = rng.random() < 0.34
+            tests = []
+            for j in range(n):
+                nm = "e%d" % j
+                tests.append(malformed_test(rng, nm) if bad and rng.random() < 0.6 else wf_test(rng, nm))
+            if bad and n > 1 and rng.random() < 0.2:
+                tests[-1][0] = tests[0][0]          # duplicate name
+            yield ["c02.expect", tests]
+
+    # live runs are generated and evaluated in extra(): a disagreement there is localised to one
+    # (test, config case) from the per-permutation results instead of the generic list shrinker,
+    # which would start hundreds of servers
+    def live_cases(self, rng, tier):
+        quick = tier == "quick"
+        plan = [((0, 0), 5 if quick else 40, 8), ((0, 1), 1 if quick else 10, 8), ((1, 0), 1 if quick else 10, 8), ((1, 1), 1 if quick else 10, 8)]
+        fd_multi = []
+        for (gc, gs), ncases, ntests in plan:
+            cfgs = cfg_matrix(tier, gc, gs)
+            for c in range(ncases):
+                tests = []
+                while len(tests) < ntests:
+                    t = wf_test(rng, "t%d" % len(tests))
+                    if is_fd_immediate_error_multi(t):
+                        if len(fd_multi) < 3:
+                            t[0] = "k%d" % len(fd_multi)
+                            fd_multi.append(t)
+                        continue
+                    if gs and is_zero_request_stream(t):
+                        continue            # known hang against the grpc-go server: isolated batch below, thorough tier only
+                    tests.append(t)
+                for cf, ts in split_for_grpc_server(gs, cfgs, tests):
+                    yield ["c02.live", [gc, gs], cf, ts]
+        # 4. targeted shapes the corpus lacks, every pair
+        for gc, gs in [(0, 0), (0, 1), (1, 0), (1, 1)]:
+            cfgs = cfg_matrix(tier, gc, gs)
+            tests = [
+                wf_test(rng, "more-responses", st=FULL, nreq=2, nresp=5, err=False, with_def=True),
+                wf_test(rng, "more-requests-error", st=FULL, nreq=4, nresp=2, err=True, with_def=True),
+                wf_test(rng, "half-immediate-error", st=HALF, nreq=3, nresp=0, err=True, with_def=True),
+                wf_test(rng, "fd-immediate-error-1", st=FULL, nreq=1, nresp=0, err=True, with_def=True),
+                wf_test(rng, "cs-error", st=CLIENT, nreq=3, err=True, with_def=True),
+                wf_test(rng, "ss-error-after", st=SERVER, nresp=3, err=True, with_def=True),
+                wf_test(rng, "unary-error", st=UNARY, err=True, with_def=True),
+                wf_test(rng, "no-def", st=HALF, nreq=2, with_def=False),
+            ]
+            if not gs:
+                tests.append(wf_test(rng, "cs-zero", st=CLIENT, nreq=0))
+                tests.append(wf_test(rng, "fd-zero", st=FULL, nreq=0))
+            for cf, ts in split_for_grpc_server(gs, cfgs, tests):
+                yield ["c02.live", [gc, gs], cf, ts]
+        # 5. known-finding classes, each in a batch of its own
+        if not fd_multi:
+            fd_multi = [wf_test(rng, "k0", st=FULL, nreq=2, nresp=0, err=True, with_def=True)]
+        yield ["c02.live", [0, 0], [[2, 1, 1, 1, 0], [2, 2, 1, 2, 0]], fd_multi[:2]]
+        if not quick:
+            yield ["c02.live", [0, 1], [[2, 2, 1, 1, 0]], [wf_test(rng, "z0", st=CLIENT, nreq=0)]]
+            yield ["c02.live", [0, 1], [[1, 3, 1, 1, 0], [1, 3, 1, 2, 0]],
+                   [wf_test(rng, "h%d" % i, st=HALF, nreq=3, with_def=True) for i in range(4)]]
+
+
+
+    def extra(self, ctx):
+        rng = random.Random(ctx.seed * 7919 + 20002)
+        cases = list(self.live_cases(rng, ctx.tier))
+        hang = [c for c in cases if c[1][1] and all(is_zero_request_stream(t) for t in c[3])]
+        cases = [c for c in cases if c not in hang]
+        g, m = ctx.eval_both(cases, "live")
+        if hang:        # costs 20 s and the client process: a batch of its own
+            gh, mh = ctx.eval_both(hang, "live-hang")
+            cases, g, m = cases + hang, g + gh, m + mh
+        kf = known_findings(self.id)
+        out, seen, perms, passed = [], {}, 0, 0
+        for c, gr, mr in zip(cases, g, m):
+            if gr is not None:
+                perms += gr.count("(#") and len(parse_sx(gr)) if gr.startswith("((") else 0
+                passed += gr.count(" #70617373 ")
+            if gr == mr:
+                continue
+            cls = self.classify(c, gr, mr)
+            if cls is not None and cls in kf:
+                seen.setdefault(cls, c)
+                continue
+            if len(out) >= 3:
+                continue
+            small, gs_, ms_ = self.localise(ctx, c, gr, mr)
+            body = "; %s: %s\n; impl : %s\n; model: %s\n; replay: ./check %s --replay <this file>\n%s\n" % (
+                self.id, self.describe(small, gs_, ms_), gs_, ms_, self.id, sx([small[0], 0] + list(small[1:])))
+            out.append(Violation("disagreement on %s" % sx(small)[:300], body))
+        for cls, c in seen.items():
+            print("KNOWN-FINDING: property=%s class=%s %s (e.g. %s)" % (self.id, cls, kf[cls], sx(c)[:200]))
+        ctx.notes["live_cases"] = len(cases)
+        ctx.notes["live_permutations"] = perms
+        ctx.notes["live_permutations_passed"] = passed
+        ctx.notes["live_known_classes_reproduced"] = sorted(seen)
+        return out
+
+    def localise(self, ctx, case, gr, mr):
+        """one differing (test, config case), then a few rounds of shrinking that single test"""
+        kind, pair, cfgs, tests = case
+        try:
+            G, M = parse_sx(gr), parse_sx(mr)
+            bad = None
+            if isinstance(G, list) and isinstance(M, list) and G and isinstance(G[0], list):
+                for k, x in enumerate(G):
+                    if k >= len(M) or x != M[k]:
+                        bad = (x[0], x[1])
+                        break
+                if bad is None and len(M) > len(G):
+                    bad = (M[len(G)][0], M[len(G)][1])
+            cand = None
+            if bad is not None:
+                ts = [t for t in tests if (t[0].encode() if isinstance(t[0], str) else t[0]) == bad[0]]
+                if ts:
+                    cand = [kind, pair, [bad[1]], ts[:1]]
+            if cand is None:
+                return case, gr, mr
+            (g1,), (m1,) = ctx.eval_both([cand], "live-min")
+            if g1 == m1:
+                return case, gr, mr
+            cur, gc_, mc_ = cand, g1, m1
+            for _ in range(4):
+                cands = []
+                for t in _shrink_candidates(cur[3][0]):
+                    if isinstance(t, list) and len(t) == 4:
+                        cands.append([kind, pair, cur[2], [t]])
+                    if len(cands) >= 30:
+                        break
+                if not cands:
+                    break
+                gg, mm = ctx.eval_both(cands, "live-shrink")
+                hit = None
+                for cc, a, b in zip(cands, gg, mm):
+                    if a is None or b is None or "6261642d63617365" in b or "6261642d63617365" in a:
+                        continue
+                    if a != b:
+                        hit = (cc, a, b)
+                        break
+                if hit is None:
+                    break
+                cur, gc_, mc_ = hit
+            return cur, gc_, mc_
+        except Exception:
+            return case, gr, mr
 
 
 PROP = C02()
